@@ -736,6 +736,10 @@ func (ex *Executor) bufWrite(st *State, b *BufV, pos, data *Term) {
 	if len(expr.String()) > 200 {
 		// definitional naming keeps terms small
 		nw = ex.Fresh("buf", SStr)
+		if ex.Defs == nil {
+			ex.Defs = map[string]*Term{}
+		}
+		ex.Defs[nw.Op] = expr
 		st.Fact(Eq(nw, expr))
 		st.Fact(Eq(StrLen(nw), StrLen(full)))
 	}
